@@ -206,4 +206,34 @@ def oracle(ctx, budget=1, replay=None, hints=None):
                 if len(set(bool(g.containsPoint(x, y)) for g in gs)) != 1:
                     fails.append(dict(what='corner order changes membership', case=repr(c), expected='same', actual='differs', signature='corners'))
                     break
-    return dict(evaluations=n, failures=fails, samples=[repr(c) for c in cases[:2]], distribution=dist)
+    # hair's-breadth cases: an inner region that sticks out of the outer one by 1e-9 .. 1e-6 is NOT contained (closed sets, no tolerance)
+    rng = ctx.rng
+    for _ in range(200 * budget):
+        n += 1
+        eps = rng.choice([1e-9, 1e-7, 5e-7, 1e-6])
+        cx, cy = float(rng.randint(20, 180)), float(rng.randint(20, 180))
+        k = rng.randint(0, 3)
+        if k == 0:      # rectangle in rectangle, one edge pushed out
+            w, h = float(rng.randint(2, 20)), float(rng.randint(2, 20))
+            outer = impl.RectangularRegion(id='o', x1=cx - w, y1=cy - h, x2=cx + w, y2=cy + h)
+            d = [0.0, 0.0, 0.0, 0.0]; d[rng.randint(0, 3)] = eps
+            inner = impl.RectangularRegion(id='i', x1=cx - w - d[0], y1=cy - h - d[1], x2=cx + w + d[2], y2=cy + h + d[3])
+        elif k == 1:    # circle in circle, concentric, radius a hair larger
+            r = float(rng.randint(2, 20))
+            outer = impl.CircularRegion(id='o', cx=cx, cy=cy, r=r)
+            inner = impl.CircularRegion(id='i', cx=cx, cy=cy, r=r + eps)
+        elif k == 2:    # circle in rectangle, touching one edge and a hair beyond
+            r = float(rng.randint(2, 10))
+            outer = impl.RectangularRegion(id='o', x1=cx - 30, y1=cy - 30, x2=cx + 30, y2=cy + 30)
+            side = rng.randint(0, 3)
+            ccx = cx + (30 - r + eps if side == 0 else -(30 - r + eps) if side == 1 else 0.0)
+            ccy = cy + (30 - r + eps if side == 2 else -(30 - r + eps) if side == 3 else 0.0)
+            inner = impl.CircularRegion(id='i', cx=ccx, cy=ccy, r=r)
+        else:           # rectangle in circle: one corner a hair outside (3-4-5 triangle)
+            outer = impl.CircularRegion(id='o', cx=cx, cy=cy, r=5.0)
+            inner = impl.RectangularRegion(id='i', x1=cx - 3.0, y1=cy - 4.0, x2=cx + 3.0 + eps, y2=cy + 4.0)
+        dist['hairsbreadth'] = dist.get('hairsbreadth', 0) + 1
+        if outer.containsRegion(inner):
+            fails.append(dict(what='containsRegion reported true although the inner region sticks out by %g' % eps, case=repr((outer.toDict(), inner.toDict())),
+                              expected='False', actual='True', signature='containment'))
+    return dict(evaluations=n, failures=fails[:10], samples=[repr(c) for c in cases[:2]], distribution=dist)
